@@ -1,8 +1,12 @@
 """C19 - output tables label time correctly and echo inputs and the selected field."""
-from contracts import output
+from contracts import output, simulate  # noqa: F401
 
 OM = "ghedesigner.output:OutputManager"
-FUNCTIONS = [f"{OM}.ghe_time_convert", f"{OM}.hours_to_month", f"{OM}.get_hourly_loading_data", f"{OM}.get_borehole_location_data"]
+SIM = "ghedesigner.ground_heat_exchangers:GHE.simulate"
+# the loads table echoes design.ghe.hourly_extraction_ground_loads: the frame obligations of the simulations (hourly, loads as list or as float array) say that nothing
+# between the setter and the table modifies that series
+FUNCTIONS = [f"{OM}.ghe_time_convert", f"{OM}.hours_to_month", f"{OM}.get_hourly_loading_data", f"{OM}.get_borehole_location_data",
+             f"{SIM}#hourly-body-fresh", f"{SIM}#hourly-body-array-loads"]
 NATIVE_FUNCTIONS = [f"{OM}.ghe_time_convert", f"{OM}.hours_to_month", f"{OM}.get_hourly_loading_data"]
 LEVEL = "proof"
 
@@ -33,12 +37,14 @@ def bounded(run, tier, seed):
 
 ASSUMPTIONS = [
     "A-REAL: machine floats treated as mathematical reals (hours_to_month: floor of hours/8760 is a discontinuity site)",
+    "the simulate variants rest on the callee contracts of C09/C13 (_simulate_detailed verified there; to_single, calc_sts_g_functions, grab_g_function caller views)",
     "g-function table clause (rows equal the curve used in the simulation, strictly increasing axis) is carried by C11's contracts of grab_g_function/combine_sts_lts",
 ]
 NOT_PROVED = ["get_g_function_data row equality is covered in C11's run (grab_g_function contract), not here"]
 EXPLANATION = ("ghe_time_convert: full-domain symbolic hour, 12-iteration loop unrolled completely -> complete proof against the non-leap calendar table; "
                "hours_to_month: closed form for every real t >= 0, lemmas monotone + Lipschitz (continuity) + integer at month ends; "
-               "row builders: loop invariants over symbolic-length inputs (rows[k+1] == [*convert(k), k, loads[k]]; bore rows == field in order).")
+               "row builders: loop invariants over symbolic-length inputs (rows[k+1] == [*convert(k), k, loads[k]]; bore rows == field in order); "
+               "GHE.simulate (hourly; loads as list or float array): frame obligation - the stored load series that the table echoes is not modified by a simulation.")
 LEVEL_TEXT = ("Deductive proof for all inputs: the hour->(month,day,hour) conversion equals the non-leap calendar for every hour 0..8759; the fractional-month "
               "conversion equals its closed form for every real elapsed time, from which monotonicity, continuity (Lipschitz bound) and integrality at month "
               "ends are proved as lemmas; the loads table and the bore-field table are proved, for input lists of any length, to echo their inputs in order with those labels.")
